@@ -98,6 +98,7 @@ type Op struct {
 	// the specification's view of the expressions (absent for garbage and native texts)
 	CondTree   *Cond `json:"condTree,omitempty"`
 	KeyTree    *Cond `json:"keyTree,omitempty"`
+	BadKeyCond string `json:"badKeyCond,omitempty"` // class of a condition that is no key condition
 	FilterTree *Cond `json:"filterTree,omitempty"`
 
 	// not on the wire: placeholders as Go maps
